@@ -1141,6 +1141,8 @@ fn format_initializer_inner(
 ) -> Result<(), FormatError> {
     match init {
         ast::Initializer::Expression(expr) => format_expression(expr, output, context)?,
+        // An aggregate may be empty when it initialises a struct without members
+        ast::Initializer::Aggregate(exprs) if exprs.is_empty() => output.push_str("{}"),
         ast::Initializer::Aggregate(exprs) => {
             output.push_str("{ ");
             let (head, tail) = exprs.split_first().unwrap();
